@@ -1363,6 +1363,20 @@ impl Error {
         }
     }
 
+    /// True if this error was produced from a `saphyr_parser::ScanError` (a YAML syntax error).
+    ///
+    /// Used to decide whether an error that follows an explicit document end marker can be
+    /// treated as ignorable trailing garbage: budget breaches and I/O failures never are.
+    pub(crate) fn is_scan_error(&self) -> bool {
+        matches!(
+            self.without_snippet(),
+            Error::ExternalMessage {
+                source: ExternalMessageSource::SaphyrParser,
+                ..
+            } | Error::UnknownAnchor { .. }
+        )
+    }
+
     /// Map a `saphyr_parser::ScanError` into our error type with location.
     ///
     /// Called by:
